@@ -436,7 +436,7 @@ theorem tallyOne_step {s s' : State} {stk : Staking} {id : Nat} (h2 : settleShap
     · cases hs'
     · rename_i passes burn hr
       simp only [h4, if_true] at hs'
-      have hi0 : Inv { s with votes := votesNot s.votes id } := ⟨ha.inv.bal, ha.inv.recs⟩
+      have hi0 : Inv { s with votes := votesNot s.votes id } := ⟨ha.inv.bal, ha.inv.recs, ha.inv.clean⟩
       have hb0 : Both { s with votes := votesNot s.votes id } := ⟨ha.both.q, vi_votesNot ha.both.v id⟩
       have hn0 : ∀ v ∈ votesNot s.votes id, v.pid ≠ id := fun v hv => (mem_votesNot.mp hv).2
       refine ⟨⟨finishTally_inv h2 h3 hi0 hp0 hs', finishTally_both h2 h3 hb0 hi0 hp0 hst0 hn0 hs'⟩, ?_⟩
@@ -531,8 +531,8 @@ theorem endBlock_total {s : State} {stk : Staking} (h1 : inactiveSettleShapeOk =
 /-! ### every history -/
 
 theorem step_all (h1 : inactiveSettleShapeOk = true) (h2 : settleShapeOk = true) (h3 : execInCacheCtx = true)
-    (h4 : tallyRemovesVotes = true) {s : State} (op : Op) (ha : All s) : All (step s op).1 := by
-  refine ⟨step_inv h1 h2 h3 op ha.inv, ?_⟩
+    (h4 : tallyRemovesVotes = true) {s : State} (op : Op) (hop : opNoGovSpend op = true) (ha : All s) : All (step s op).1 := by
+  refine ⟨step_inv h1 h2 h3 op hop ha.inv, ?_⟩
   cases op with
   | mint who amt => exact both_of_eq ha.both rfl rfl rfl rfl rfl
   | updateParams p => simp only [step]; split <;> exact both_of_eq ha.both rfl rfl rfl rfl rfl
@@ -590,11 +590,14 @@ theorem step_all (h1 : inactiveSettleShapeOk = true) (h2 : settleShapeOk = true)
 /-- the invariants hold after every history, whatever the staking numbers handed to the blocks were (a block whose
 end-blocker returns an error leaves the model state unchanged) -/
 theorem run_all (h1 : inactiveSettleShapeOk = true) (h2 : settleShapeOk = true) (h3 : execInCacheCtx = true)
-    (h4 : tallyRemovesVotes = true) : ∀ (ops : List Op) (s : State), All s → All (run s ops) := by
+    (h4 : tallyRemovesVotes = true) : ∀ (ops : List Op), NoGovSpend ops = true → ∀ (s : State), All s → All (run s ops) := by
   intro ops
   induction ops with
-  | nil => intro s ha; exact ha
-  | cons o r ih => intro s ha; exact ih _ (step_all h1 h2 h3 h4 o ha)
+  | nil => intro _ s ha; exact ha
+  | cons o r ih =>
+    intro hc s ha
+    have hc' : opNoGovSpend o = true ∧ NoGovSpend r = true := by simpa [NoGovSpend] using hc
+    exact ih hc'.2 _ (step_all h1 h2 h3 h4 o hc'.1 ha)
 
 theorem init_all : All init := ⟨init_inv, init_qinv, init_vinv⟩
 
